@@ -2,7 +2,7 @@ import os, sys
 sys.path.insert(0, os.path.join(os.path.dirname(os.path.abspath(__file__)), '..', 'common'))
 import srcsets_tree
 HARNESSES = [
-    {'name': 'h_invrev', 'src': 'C08/h_invrev.cpp', 'entry': 'h_invrev', 'repo_srcs': srcsets_tree.BTC_TREE, 'covers': [1, 2, 3, 4, 5, 6], 'jobs': 8, 'address_dependent': False,
+    {'name': 'h_invrev', 'src': 'C08/h_invrev.cpp', 'entry': 'h_invrev', 'repo_srcs': srcsets_tree.BTC_TREE, 'covers': [1, 2, 3, 4, 5, 6, 7], 'jobs': 8, 'address_dependent': False,
      'obligations': ['invalidateSubtree(B,r): B and every descendant failed and not a tip, best chain does not contain them, flags outside subtree(B) unchanged',
                      'revalidateSubtree(B,r) after invalidateSubtree(B,r): every FAILED_* flag and the tip set equal the pre-state; best chain work not lower',
                      'structural invariants (heights, mutual links, failed-descendant closure, tips == valid leaves, contiguous valid best chain) after every step',
